@@ -5,6 +5,8 @@ mod connmc;
 mod connref;
 mod conntrace;
 mod cuts;
+mod malformed;
+mod route;
 mod svc;
 mod util;
 
@@ -19,6 +21,8 @@ fn main() {
         "connref" => connref::run(rest),
         "conn" => connmc::run(rest),
         "cuts" => cuts::run(rest),
+        "malformed" => malformed::run(rest),
+        "route" => route::run(rest),
         "conntrace" => conntrace::run(rest),
         other => {
             eprintln!("vh: unknown subcommand {}", other);
